@@ -1333,6 +1333,18 @@ func (s *fstate) extern(in *ssa.Call, f *ssa.Function, args []ObjSet, cs map[Obj
 			spec, ok = externSpec{}, true
 		}
 	}
+	if !ok && name == "sort.IsSorted" && len(in.Call.Args) == 1 {
+		// read-only when the argument is one of package sort's own slice adapters (their Len and
+		// Less only read); for any other implementation the callee's methods are not summarised
+		if mi, isMI := in.Call.Args[0].(*ssa.MakeInterface); isMI {
+			if nt, isN := mi.X.Type().(*types.Named); isN && nt.Obj().Pkg() != nil && nt.Obj().Pkg().Path() == "sort" {
+				switch nt.Obj().Name() {
+				case "Float64Slice", "IntSlice", "StringSlice":
+					spec, ok = externSpec{}, true
+				}
+			}
+		}
+	}
 	if !ok {
 		return nil, false
 	}
